@@ -50,8 +50,8 @@ var templates = map[string][][]string{
 	// zset
 	"zscore": {{"zscore", "vns:t:z1", "m1"}}, "zcount": {{"zcount", "vns:t:z1", "1", "(3"}}, "zcard": {{"zcard", "vns:t:z1"}},
 	"zlexcount": {{"zlexcount", "vns:t:z1", "[a", "(z"}}, "zrange": {{"zrange", "vns:t:z1", "0", "-1"}, {"zrange", "vns:t:z1", "0", "1", "withscores"}},
-	"zrevrange":   {{"zrevrange", "vns:t:z1", "0", "-1", "withscores"}},
-	"zrangebylex": {{"zrangebylex", "vns:t:z1", "-", "+"}, {"zrangebylex", "vns:t:z1", "[a", "(z", "limit", "0", "2"}},
+	"zrevrange":        {{"zrevrange", "vns:t:z1", "0", "-1", "withscores"}},
+	"zrangebylex":      {{"zrangebylex", "vns:t:z1", "-", "+"}, {"zrangebylex", "vns:t:z1", "[a", "(z", "limit", "0", "2"}},
 	"zrangebyscore":    {{"zrangebyscore", "vns:t:z1", "-inf", "+inf"}, {"zrangebyscore", "vns:t:z1", "(1", "3", "withscores", "limit", "0", "2"}},
 	"zrevrangebyscore": {{"zrevrangebyscore", "vns:t:z1", "+inf", "-inf", "limit", "1", "1"}},
 	"zrank":            {{"zrank", "vns:t:z1", "m2"}}, "zrevrank": {{"zrevrank", "vns:t:z1", "m2"}},
@@ -142,10 +142,10 @@ func keyPool() [][]byte {
 		[]byte("vns:t:nokey"), []byte("vns:t:"), []byte("vns:t"), []byte("vns:"), []byte("vns"), []byte("vns::k"), []byte("vns::"), []byte(":t:k"), []byte(":"), []byte("t:k"),
 		[]byte("zzz:t:k"), []byte("vns-0:t:k"), []byte("vns:t:k:more:colons"), []byte("vns:t2:k"), []byte("vns:t:\x00"), []byte("vns:t:\xff\xfe"), []byte("vns:\x00:k"),
 		[]byte("vns:\xff:k"), []byte("vns:t:k1\x00"), []byte("VNS:t:k1"), []byte("vns:T:k1"),
-		append([]byte("vns:t:"), longKey...),              // raw key > 10240
-		append([]byte("vns:t:"), longKey[:10240-6]...),    // raw key == 10240
-		append([]byte("vns:t:"), longKey[:10240-6+1]...),  // raw key == 10241
-		append([]byte("vns:t:"), longKey[:10240-6-4]...),  // a bit below
+		append([]byte("vns:t:"), longKey...),                                               // raw key > 10240
+		append([]byte("vns:t:"), longKey[:10240-6]...),                                     // raw key == 10240
+		append([]byte("vns:t:"), longKey[:10240-6+1]...),                                   // raw key == 10241
+		append([]byte("vns:t:"), longKey[:10240-6-4]...),                                   // a bit below
 		append([]byte("vns:"), append(bytes.Repeat([]byte("T"), 300), []byte(":k")...)...), // long table
 		[]byte(""),
 	}
